@@ -7,17 +7,17 @@ CONSTANTS
   NShards = 2
   Metrics <- BMetrics
   TimingShard = 1
-  T0 <- R0
-  Lags0 = {2, 6}
+  T0 <- B0
+  Lags0 = {2, 5, 6}
   Fulls0 = {FALSE}
   Ticks <- BTicks
   TsOffs <- BOffs
   Kinds = {"metric", "api"}
   SpreadOf <- EdgeSpread
   Variant = "code"
-  MaxOps = 5
+  MaxOps = 6
   MaxEvents = 2
 VIEW View
 INVARIANTS ExactlyOnce AllFlushed NotEarly RingOK Rounded Placement DropsJustified OutIncreasing SendBound ChanCap
-ACTION_CONSTRAINT ExportEnd
+ACTION_CONSTRAINT ExportBeh
 CHECK_DEADLOCK FALSE
